@@ -412,6 +412,12 @@ func (x *Exec) trQuant(t *CQuant, env *Env) Val {
 		}
 		x.qn++
 		name := fmt.Sprintf("%s_q%d", v.Name, x.qn)
+		if _, isMap := under(ty).(*types.Map); isMap {
+			// a bound variable of map type ranges over ghost (total) maps: an SMT array
+			ne = ne.with(v.Name, Val{T: ty, S: name, GM: x.eng.ghostMapInfoOfType(x, ty)})
+			binders = append(binders, fmt.Sprintf("(%s %s)", name, x.ghostSort(ty)))
+			continue
+		}
 		ne = ne.with(v.Name, Val{T: ty, S: name})
 		binders = append(binders, fmt.Sprintf("(%s %s)", name, x.so.sortOf(ty)))
 		// no range guards on bound variables: contracts quantify over mathematical integers
